@@ -32,6 +32,7 @@ import (
 	"log"
 	"runtime"
 	"sync"
+	"time"
 
 	"github.com/tjfoc/gmsm/sm4"
 	"golang.org/x/crypto/salsa20"
@@ -188,6 +189,22 @@ var refBlocks = map[string]func(k []byte) (stdcipher.Block, error){
 	"xtea":    func(k []byte) (stdcipher.Block, error) { return xtea.NewCipher(k[:16]) },
 }
 
+// guard runs f like Catch, and gives up after d (a hang counts as a failure and is reported
+// like a panic; the goroutine is abandoned)
+func guard(d time.Duration, f func()) (failed bool) {
+	done := make(chan bool, 1)
+	go func() {
+		p, _ := Catch(f)
+		done <- p
+	}()
+	select {
+	case p := <-done:
+		return p
+	case <-time.After(d):
+		return true
+	}
+}
+
 // a copy whose capacity equals its length (key[:n] must fail when the key is too short)
 func exact(b []byte) []byte {
 	c := make([]byte, len(b))
@@ -270,7 +287,7 @@ func runFactory(in Sx) Sx {
 	encs := make([][]byte, n)
 	decs := make([][]byte, n)
 	refs := make([][]byte, n)
-	panicked, _ := Catch(func() {
+	panicked := guard(60*time.Second, func() {
 		a := xcipher.NewCrypt(name, append([]byte(nil), key...), append([]byte(nil), iv...))
 		b := xcipher.NewCrypt(name, append([]byte(nil), key...), append([]byte(nil), iv...))
 		for i := 0; i < n; i++ {
@@ -307,7 +324,7 @@ func runToy(in Sx) Sx {
 	ops := in.At(7)
 	var outs []Sx
 	var raw [][]byte
-	panicked, _ := Catch(func() {
+	panicked := guard(60*time.Second, func() {
 		for i := 0; i < ops.Len(); i++ {
 			o := ops.At(i)
 			var data []byte
@@ -822,7 +839,7 @@ func toyLong(out *acc, rng *Rng, bs int, lens []int, tag string) {
 		back := make([]byte, n)
 		back2 := make([]byte, n)
 		stdback := make([]byte, n)
-		p, _ := Catch(func() {
+		p := guard(60*time.Second, func() {
 			xcipher.VerifEncrypt(blk, iv, ct, ct, encbuf)
 			xcipher.VerifEncrypt(blk, iv, ct2, msg, encbuf)
 			copy(back, ct)
@@ -864,7 +881,7 @@ func factoryLong(out *acc, rng *Rng, name string, lens []int, tag string) {
 	iv := rng.Bytes(rng.Range(16, 48))
 	prev := List(Uint(0), Int(0))
 	var enc, dec xcipher.BlockCryptor
-	if p, _ := Catch(func() {
+	if p := guard(60*time.Second, func() {
 		enc = xcipher.NewCrypt(name, exact(key), exact(iv))
 		dec = xcipher.NewCrypt(name, exact(key), exact(iv))
 	}); p {
@@ -877,7 +894,7 @@ func factoryLong(out *acc, rng *Rng, name string, lens []int, tag string) {
 		in := List(Int(3), Str(name), Bytes(key), Bytes(iv), List(prev, List(Uint(seed), Int(int64(n)))))
 		want, err := reference(name, key, iv, msg)
 		var ct, back []byte
-		p, _ := Catch(func() {
+		p := guard(60*time.Second, func() {
 			ct = append([]byte{}, enc.Encrypt(append([]byte(nil), msg...))...)
 			back = append([]byte{}, dec.Decrypt(append([]byte(nil), ct...))...)
 		})
